@@ -551,3 +551,18 @@ Proof.
          "http://h/a", "CRL+", "CRL", 5%Z.
   repeat split; try (vm_compute; reflexivity). discriminate.
 Qed.
+
+(* any sequence of operations on other urls (Sets, corruptions, removals,
+   directories), from ANY directory: the file of u is not created, changed or removed *)
+Theorem isolated_files sha enc dec parse ops (f : fs) u :
+  (forall o, In o ops -> op_url o <> u /\ (sha (op_url o) = sha u -> op_url o = u)) ->
+  alookup (file_name sha u) (snd (run_ops sha enc dec parse f ops)) = alookup (file_name sha u) f /\
+  forall t, get sha dec parse (snd (run_ops sha enc dec parse f ops)) u t = get sha dec parse f u t.
+Proof.
+  intros H.
+  assert (alookup (file_name sha u) (snd (run_ops sha enc dec parse f ops)) = alookup (file_name sha u) f) as E.
+  { apply run_key_idle.
+    - intros o Ho E. apply hex_inj in E. apply (H o Ho); auto.
+    - intros o Ho. left. apply (H o Ho). }
+  split; auto. intros t. apply get_reads_only; auto.
+Qed.
